@@ -143,7 +143,7 @@ func (d *binDecoder) varUInt(pos, limit int, overRule string) (int64, int, *Erro
 	var v int64
 	for {
 		if pos >= limit || pos >= len(d.data) {
-			return 0, pos, bErr(overRule, pos, "VarUInt starting at %d not terminated", start)
+			return 0, pos, bErr(overRule, start, "VarUInt starting at %d not terminated before %d", start, pos)
 		}
 		b := d.data[pos]
 		pos++
@@ -169,7 +169,7 @@ func (d *binDecoder) varInt(pos, limit int, overRule string) (int64, bool, int, 
 	v := int64(b & 0x3F)
 	for b&0x80 == 0 {
 		if pos >= limit || pos >= len(d.data) {
-			return 0, false, pos, bErr(overRule, pos, "VarInt starting at %d not terminated", start)
+			return 0, false, pos, bErr(overRule, start, "VarInt starting at %d not terminated before %d", start, pos)
 		}
 		b = d.data[pos]
 		pos++
